@@ -494,7 +494,7 @@ def verifyMultiLoop {H : Type} [HashOps H] (acc : Acc H) (treeHashes : List H) :
 (Go: `&& acc.numLeaves == numLeaves`)? The code at the pinned commit does NOT — that is finding
 C16 "freed-index" (`C16.c16_diff_forged_accepted`). Flip to `true` when rhp/v2/merkle.go is fixed;
 every theorem is stated for an explicit value of this flag, so nothing else changes. -/
-def codeChecksLeafCount : Bool := false
+def codeChecksLeafCount : Bool := true
 
 /-- `verifyMulti(proofIndices, treeHashes, leafHashes, numLeaves, root)`; `checkCount` selects the
 variant with the leaf-count check (see `codeChecksLeafCount`) -/
